@@ -205,6 +205,16 @@ def _generator(ctx):
         A2.eq(arg(c, 1), A2.spec("m - abs(v)", {"m": ra.params["max_val"], "v": cur, "abs": glob("builtins.abs")}))
     ctx.ob("R09.4", ra.func, c.node, ok, "the recursion continues with index + 1 and budget max_val - |current value|",
            construct="L1 budget recursion")
+    apps = [x for x in ra.events if x.kind == "call" and x.data["fterm"].op == "attr" and x.data["fterm"].args[1] == "append"
+            and x.func == ra.func]
+    rets = [x for x in ra.events if x.kind == "return" and x.func == ra.func and not x.data.get("bare", False) is False]
+    early = [x for x in ra.events if x.kind == "return" and x.func == ra.func]
+    base = A2.C.canon(A2.entry(ra, "index == self.dim"))
+    okb = len(apps) == 1 and [A2.C.canon(c) for c in apps[0].pc] == [base] and A2.eq(arg(apps[0], 0), A2.entry(ra, "self.entry.copy()")) \
+        and not early and len(rec) == 1 and [A2.C.canon(c) for c in rec[0].pc if c.op != "inloop"] == [A2.C._not(base)]
+    ctx.ob("R09.4", ra.func, apps[0].node if apps else None, okb, "a lattice point is recorded exactly when all coordinates are "
+           "set (index == dim), and otherwise every admissible value of the current coordinate is recursed into - no "
+           "shortcut exits", construct="lattice recursion structure")
     vals = A2.C.canon(lev.data["iter"])
     free = A2.C.canon(A2.entry(ra, "range(-max_val if self.neg_allowed[index] else 0, max_val + 1)"))
     ok = contains(vals, lambda s: s is free)
